@@ -2,7 +2,7 @@ LIBS = ["libvpsc", "libavoid", "libcola"]
 HARNESS = "harness/c20.cpp"
 EXTRA_FLAGS = ["-DUSE_ASSERT_EXCEPTIONS"]     # a failed COLA_ASSERT throws instead of aborting the stream (same flag set as C11: objects shared)
 DRIVER_MODE = "c20"
-LEAN_MODULES = ["AdaptaVerif.Props.C20"]
+LEAN_MODULES = ["AdaptaVerif.Props.C20", "AdaptaVerif.Props.C20Tie"]
 LEVEL = "other"
 LEVEL_TEXT = ("Two halves. (A) LOGIC, machine-checked Lean 4 theorems for all inputs: every geometry predicate the router's decisions are "
               "built from is invariant under translations and the 8 symmetries of the square (orientation-like ones change sign with the "
@@ -48,6 +48,16 @@ EXPLANATION = ("(A) Logic half, Lean theorems for all inputs (Props/C20.lean): t
                "(B) Runtime half, observed: every case is executed twice in one process with heap scrambling and unrelated work in "
                "between (bit-identity of routes, solver positions, removeoverlaps; layouts to 1e-9), translated by multiples of 2^-10, "
                "under the 7 non-trivial symmetries (costs) and with permuted VPSC input order. Determinism itself is sampled, not proved.")
+
+def regenerate(ROOT, REPO):
+    """the comparators handed to std::set / std::sort / list::sort / the pairing heap are regenerated from the C++ by
+    cpp2lean on every run and proved strict weak orders with explicit equivalence classes (Props/C20Tie.lean)"""
+    import sys
+    from pathlib import Path
+    sys.path.insert(0, str(Path(ROOT) / "tools" / "cpp2lean"))
+    import jobs
+    return jobs.regenerate(["comparators"], Path(ROOT), Path(REPO))
+
 
 def plan(tier, seed, searching):
     return [dict(hargs=["--seed", str(seed), "--tier", tier, "--scale", "8" if searching else "1"])]
